@@ -109,7 +109,6 @@ def model (arg : String) : String :=
     match convertSong r.song r.data r.volume with
     | .error (.writer e) => werrMsg e
     | .error (.codec .atEmpty) => "exc:out_of_range"
-    | .error (.codec .stackEmpty) => "err:loopCmdWithoutStart"   -- an InputError since repository fix 3e0ed67
     | .error (.codec .stackEmpty) => "err:loopCmd"
     | .error .macroUnmodelled =>
       -- the first-layer model stops at macro tracks; the constructor model (C09's, over which the whole-song
@@ -295,6 +294,5 @@ def judgeO (arg impl : String) : String :=
 def handlers : List Driver.Handler :=
   [{ cmd := "conv", model := model, judge := fun a i => judgeC02 a i },
    { cmd := "convo", model := modelO, judge := judgeO },
-   { cmd := "convox", model := fun _ => optModelDeclines, judge := judgeO },
    { cmd := "convwf", model := model, judge := judgeC03 }]
 end Driver.ConvD
